@@ -24,4 +24,4 @@ def _nontrivial(c):
 
 
 mach.install(globals(), "C05", ("EvBefore", "EvFlush", "EvItemDone", "EvAfter", "EvIllegal"), ("C05:",), PROFILES,
-             n_quick=300, n_thorough=5000, nontrivial=_nontrivial)
+             n_quick=300, n_thorough=5000, nontrivial=_nontrivial, level="proof")
